@@ -9,6 +9,8 @@ mod util;
 pub mod verif_handlers;
 #[cfg(feature = "verif")]
 mod verif_locks;
+#[cfg(feature = "verif")]
+pub mod verif_scope;
 
 pub use clap::Parser;
 pub use cmd_args::*;
